@@ -24,10 +24,15 @@ META = {
                   'history, limits moved by earlier requests included, satisfies the monitored specification; WF is kept). '
                   'calls_within_current_limits (lock discipline of the wrappers: in every interleaving of any number of threads a driver call is '
                   'made with a value inside the limit in force at that moment). '
+                  'calls_merge_current (change-section system: in every interleaving every driver call caused by a request is given the '
+                  'payload merged into the value cached at the moment of the call), requests_one_at_a_time, '
+                  'change_exactly_validated (for datatypes of the C01 model the driver gets exactly acceptWire dt j (some current); '
+                  'the idempotence assumption is discharged by C01 revalidate_unchanged). '
                   'The model is tied to dispatcher.py / modulebase.py / params.py by a correspondence run on the real '
                   'dispatcher with recording drivers, and the Lean monitors judge every implementation exchange.',
     'level_note': 'Trusted: Lean kernel + axioms; for the ten SECoP datatype kinds the value accepted from the wire is recomputed '
-                  'by the C01 datatype model (acceptWire) in the Lean judge and the implementation must agree; export_value, '
+                  'by the C01 datatype model (acceptWire) in the Lean judge - change payloads against the cached value, command arguments, '
+                  'and under concurrency against the value cached at the moment of the driver call - and the implementation must agree; export_value, '
                   'comparisons, LimitsType/StatusType and driver-returned values remain an oracle (C01-C03); drivers, command functions and check_ hooks are '
                   'oracles by definition; time stamps / omit_unchanged_within are not modelled (C05): the node runs with '
                   'omit_unchanged_within = 0.',
@@ -37,16 +42,21 @@ META = {
         'a stored read error is identified by (type, args) as SECoPError.__eq__ does',
     ],
     'modelled_not_verified': [
-        'threading: the sequential model serves one request at a time; the accessLock discipline is a separate small-step '
-        'system (AccessLock.lean) tied to the real wrappers by replaying their events under the deterministic scheduler',
+        'threading: the sequential model serves one request at a time; that the dispatcher does so is checked on every run '
+        '(handler sections of histories served to 2-3 connections under the deterministic scheduler must not overlap and must '
+        'behave as the sequential model in served order), not proved as a refinement; the accessLock disciplines (limit check + '
+        'call: AccessLock.lean; merge into the current value + call: ChangeSection.lean) are small-step systems tied to the '
+        'real code by replaying its events',
         'time stamps and the omit_unchanged_within window (C05)',
         'Python MRO resolution producing the check_<param> chain (taken from the real class as data)',
     ],
     'assumptions': [
         'wire names of a module are pairwise distinct and predefined names are used for their own kind (Node.WF)',
         'command functions and check hooks do not assign parameters themselves',
-        'validate is idempotent on accepted values where the statement says "exactly the validated value" (stated '
-        'separately as w = v; the theorems carry both values)',
+        'module code changes a parameter from another thread only through read_/write_ wrappers (under accessLock), not by '
+        'a bare assignment',
+        'validate is idempotent on accepted values where the statement says "exactly the validated value" (the general '
+        'theorems carry both values v, w; proved equal for datatypes of the C01 model: change_exactly_validated)',
     ],
 }
 
@@ -1119,6 +1129,14 @@ class Session:
         self.out_steps.append({'req': [kind, spec if spec is not None else None, wire_data], 'drv': drv, 'obs': obs,
                                'pyclass': reply[2][1] if reply and reply[0].startswith('error_') else None})
 
+    def close(self):
+        """drop the loggers of this node from the logging registry (thousands of nodes per run)"""
+        import logging
+        registry = logging.Logger.manager.loggerDict
+        root = self.node.root.name
+        for k in [k for k in registry if k == root or k.startswith(root + '.')]:
+            del registry[k]
+
     def record(self):
         orc = self.orc
         return {'node': self.nj, 'steps': self.out_steps, 'oracle': orc.json(), 'errors': [],
@@ -1141,6 +1159,7 @@ def run_case(nodespec, steps):
         ctx = sess.before(n, st)
         reply = sess.node.request(sess.conn, st['kind'], st['spec'], st['data'])
         sess.after(n, st, ctx, reply)
+    sess.close()
     return sess.record()
 
 
@@ -1556,7 +1575,7 @@ def merge_judge(ctx, case, obs):
 
 def run_merging(ctx, res, big):
     from vlib.sched import explore
-    ncases = ctx.budget(30, 300)
+    ncases = ctx.budget(30, 200)
     reported = False
     ndis = 0
     cases = []
@@ -1678,7 +1697,7 @@ def shared_requests(ctx, rec):
 
 def run_shared(ctx, res, big):
     from vlib.sched import RandomPolicy
-    ncases = ctx.budget(40, 500)
+    ncases = ctx.budget(40, 300)
     reported = set()
     ndis = 0
     for _ in range(ncases):
@@ -1792,7 +1811,11 @@ def run(ctx):
                 'flags, Limit parameters, check_ hook chains, commands with/without argument/result, cfg overrides) x '
                 'request histories of 10-40 (thorough 10-80) change/do/read requests with scripted drivers; one evaluation '
                 '= one request; non-trivial = a history in which at least one change reached the driver, one was refused '
-                'for a reason other than the name, and a dynamic limit or hook decided at least one request')
+                'for a reason other than the name, and a dynamic limit or hook decided at least one request; plus '
+                'schedules (one evaluation = one schedule) of a change racing a limit move (non-trivial: the limit moved and '
+                'the driver was called), of 2-3 threads changing / polling / writing one struct parameter (non-trivial: a '
+                'request reached the driver, two threads stored or wrote, the value changed), and generated histories served '
+                'to 2-3 connections at once (one evaluation = one request; non-trivial: a driver call and two threads served)')
     big = ctx.tier == 'thorough' or ctx.escalated
     rng = ctx.rng
     cases = []
@@ -1802,94 +1825,101 @@ def run(ctx):
             entry = json.load(open(os.path.join(cdir, fn)))
             if 'case' in entry:
                 cases.append(entry['case'])
-    for _ in range(ctx.budget(600, 9000)):
-        cases.append(gen_case(rng.randrange(1 << 40), big))
-    recs, reqs = [], []
-    skipped = 0
-    for case in cases:
-        try:
-            rec = run_case(case['nodespec'], case['steps'])
-        except Exception as e:   # a generator that builds an impossible class is a harness problem, not a verdict
-            raise RuntimeError(f'case {case["seed"]} could not be run: {e!r}') from e
-        if rec['errors']:
-            skipped += 1
-            res.count('node.rejected-by-frappy')
-            if len(res.notes) < 3:
-                res.notes.append('generated node rejected by frappy: %s' % rec['errors'][:2])
-            continue
-        recs.append((case, rec))
-        reqs += model_and_judge(ctx, rec)
-    answers = []
-    CH = 60
-    for i in range(0, len(reqs), CH):
-        answers += ctx.driver.batch(reqs[i:i + CH])
-    shrunk = 0
-    for j, (case, rec) in enumerate(recs):
-        model, judge = answers[2 * j], answers[2 * j + 1]
-        if 'driver_error' in model or 'driver_error' in judge:
-            raise RuntimeError(f'driver error: {model.get("driver_error")} {judge.get("driver_error")} (case {case["seed"]})')
-        res.evaluations += len(rec['steps'])
-        res.traces += len(rec['steps'])
-        kinds = set()
-        for st in rec['steps']:
-            c = classify(st)
-            res.count(c)
-            kinds.add(c)
-            if st['obs']['calls']:
-                res.count('driver.called.' + st['req'][0])
-            if st['req'][0] == 'change' and (st['req'][1] or '').endswith('_limits'):
-                res.count('limits-pair.' + (st['obs']['reply'][0] if st['obs']['reply'][0] != 'error' else st['obs']['reply'][1]))
-        limit_used = bool(rec['oracle']['le']) or bool(rec['oracle']['chk'])
-        res.count('oracle.limit-comparisons', len(rec['oracle']['le']))
-        res.count('oracle.limit-comparisons.false', sum(1 for r in rec['oracle']['le'] if r[-1] is False))
-        res.count('oracle.hook-results.pass', sum(1 for r in rec['oracle']['chk'] if r[-1] == 'pass'))
-        res.count('oracle.hook-results.stop', sum(1 for r in rec['oracle']['chk'] if r[-1] == 'stop'))
-        res.count('oracle.hook-results.raise', sum(1 for r in rec['oracle']['chk'] if isinstance(r[-1], list)))
-        res.count('accept-rows.recomputed-by-datatype-model', len(rec.get('acceptck', [])))
-        res.count('accept-rows.outside-model(LimitsType...)', rec.get('accept_outside_model', 0))
-        res.count('accept-rows.command-arguments', rec.get('accept_kinds', {}).get('cmd', 0))
-        res.count('oracle.accept.ok', sum(1 for r in rec['oracle']['accept'] if r[-1][0] == 'ok'))
-        res.count('oracle.accept.err', sum(1 for r in rec['oracle']['accept'] if r[-1][0] != 'ok'))
-        if any(st['req'][0] == 'change' and any(c[0] == 'write' for c in st['obs']['calls']) for st in rec['steps']) \
-                and kinds & {'change.ReadOnly', 'change.RangeError', 'change.WrongType'} and limit_used:
-            res.nontriv(case['seed'])
-        if len(res.samples) < 4:
-            for st in rec['steps']:
-                if st['obs']['calls'] and st['req'][0] == 'change' and len(res.samples) < 4:
-                    res.samples.append({'req': st['req'], 'reply': st['obs']['reply'], 'calls': st['obs']['calls'],
-                                        'emits': st['obs']['emits']})
-                    break
-        if ctx.model_ok:
-            d = compare(model, rec)
-            if d is not None:
-                res.disagreements.append({'case': {'seed': case['seed'], 'big': case['big'], 'step': d['step']},
-                                          'model': {d['field']: d['model']}, 'impl': {d['field']: d['impl'], 'req': d['req'],
-                                                                                       'pyclass': d['pyclass']}})
-        if judge['bad'] is not None:
-            idx, why = judge['bad']
-            sig = sig_of(rec, idx, why)
-            keep = list(range(idx + 1))
-            if shrunk < 3:
-                shrunk += 1
+    seeds = [rng.randrange(1 << 40) for _ in range(ctx.budget(600, 5000))]
+    state = {'skipped': 0, 'shrunk': 0, 'ncases': 0}
 
-                def fails(sub, case=case, sig=sig):
-                    r = run_case(case['nodespec'], [case['steps'][i] for i in sub])
-                    if r['errors']:
-                        return False
-                    a = ctx.driver.batch([model_and_judge(ctx, r)[1]])[0]
-                    return a.get('bad') is not None and sig_of(r, a['bad'][0], a['bad'][1]) == sig
-                keep = ddmin(keep, fails, max_tests=120)
-            st = rec['steps'][idx]
-            res.violations.append({
-                'sig': sig,
-                'what': f'request {st["req"]} answered {st["obs"]["reply"]} with driver calls {st["obs"]["calls"]}; '
-                        f'the specification says: {why}',
-                'case': {'seed': case['seed'], 'big': case['big'], 'keep': keep},
-                'detail': {'step': idx, 'obs': {k: st['obs'][k] for k in ('reply', 'calls', 'emits')}}})
+    def process(cases):
+        """run, model and judge one chunk of cases (memory stays bounded in the thorough tier)"""
+        recs, reqs = [], []
+        for case in cases:
+            try:
+                rec = run_case(case['nodespec'], case['steps'])
+            except Exception as e:   # a generator that builds an impossible class is a harness problem, not a verdict
+                raise RuntimeError(f'case {case["seed"]} could not be run: {e!r}') from e
+            if rec['errors']:
+                state['skipped'] += 1
+                res.count('node.rejected-by-frappy')
+                if len(res.notes) < 3:
+                    res.notes.append('generated node rejected by frappy: %s' % rec['errors'][:2])
+                continue
+            recs.append((case, rec))
+            reqs += model_and_judge(ctx, rec)
+        answers = []
+        CH = 60
+        for i in range(0, len(reqs), CH):
+            answers += ctx.driver.batch(reqs[i:i + CH])
+        for j, (case, rec) in enumerate(recs):
+            model, judge = answers[2 * j], answers[2 * j + 1]
+            if 'driver_error' in model or 'driver_error' in judge:
+                raise RuntimeError(f'driver error: {model.get("driver_error")} {judge.get("driver_error")} (case {case["seed"]})')
+            res.evaluations += len(rec['steps'])
+            res.traces += len(rec['steps'])
+            kinds = set()
+            for st in rec['steps']:
+                c = classify(st)
+                res.count(c)
+                kinds.add(c)
+                if st['obs']['calls']:
+                    res.count('driver.called.' + st['req'][0])
+                if st['req'][0] == 'change' and (st['req'][1] or '').endswith('_limits'):
+                    res.count('limits-pair.' + (st['obs']['reply'][0] if st['obs']['reply'][0] != 'error' else st['obs']['reply'][1]))
+            limit_used = bool(rec['oracle']['le']) or bool(rec['oracle']['chk'])
+            res.count('oracle.limit-comparisons', len(rec['oracle']['le']))
+            res.count('oracle.limit-comparisons.false', sum(1 for r in rec['oracle']['le'] if r[-1] is False))
+            res.count('oracle.hook-results.pass', sum(1 for r in rec['oracle']['chk'] if r[-1] == 'pass'))
+            res.count('oracle.hook-results.stop', sum(1 for r in rec['oracle']['chk'] if r[-1] == 'stop'))
+            res.count('oracle.hook-results.raise', sum(1 for r in rec['oracle']['chk'] if isinstance(r[-1], list)))
+            res.count('accept-rows.recomputed-by-datatype-model', len(rec.get('acceptck', [])))
+            res.count('accept-rows.outside-model(LimitsType...)', rec.get('accept_outside_model', 0))
+            res.count('accept-rows.command-arguments', rec.get('accept_kinds', {}).get('cmd', 0))
+            res.count('oracle.accept.ok', sum(1 for r in rec['oracle']['accept'] if r[-1][0] == 'ok'))
+            res.count('oracle.accept.err', sum(1 for r in rec['oracle']['accept'] if r[-1][0] != 'ok'))
+            if any(st['req'][0] == 'change' and any(c[0] == 'write' for c in st['obs']['calls']) for st in rec['steps']) \
+                    and kinds & {'change.ReadOnly', 'change.RangeError', 'change.WrongType'} and limit_used:
+                res.nontriv(case['seed'])
+            if len(res.samples) < 4:
+                for st in rec['steps']:
+                    if st['obs']['calls'] and st['req'][0] == 'change' and len(res.samples) < 4:
+                        res.samples.append({'req': st['req'], 'reply': st['obs']['reply'], 'calls': st['obs']['calls'],
+                                            'emits': st['obs']['emits']})
+                        break
+            if ctx.model_ok:
+                d = compare(model, rec)
+                if d is not None:
+                    res.disagreements.append({'case': {'seed': case['seed'], 'big': case['big'], 'step': d['step']},
+                                              'model': {d['field']: d['model']}, 'impl': {d['field']: d['impl'], 'req': d['req'],
+                                                                                           'pyclass': d['pyclass']}})
+            if judge['bad'] is not None:
+                idx, why = judge['bad']
+                sig = sig_of(rec, idx, why)
+                keep = list(range(idx + 1))
+                if state['shrunk'] < 3:
+                    state['shrunk'] += 1
+
+                    def fails(sub, case=case, sig=sig):
+                        r = run_case(case['nodespec'], [case['steps'][i] for i in sub])
+                        if r['errors']:
+                            return False
+                        a = ctx.driver.batch([model_and_judge(ctx, r)[1]])[0]
+                        return a.get('bad') is not None and sig_of(r, a['bad'][0], a['bad'][1]) == sig
+                    keep = ddmin(keep, fails, max_tests=120)
+                st = rec['steps'][idx]
+                res.violations.append({
+                    'sig': sig,
+                    'what': f'request {st["req"]} answered {st["obs"]["reply"]} with driver calls {st["obs"]["calls"]}; '
+                            f'the specification says: {why}',
+                    'case': {'seed': case['seed'], 'big': case['big'], 'keep': keep},
+                    'detail': {'step': idx, 'obs': {k: st['obs'][k] for k in ('reply', 'calls', 'emits')}}})
+        state['ncases'] += len(recs)
+    CHUNK = 300
+    process(cases + [gen_case(sd, big) for sd in seeds[:CHUNK]])
+    for i in range(CHUNK, len(seeds), CHUNK):
+        process([gen_case(sd, big) for sd in seeds[i:i + CHUNK]])
     run_concurrent(ctx, res, big)
     run_merging(ctx, res, big)
     run_shared(ctx, res, big)
-    res.count('cases', len(recs))
+    res.count('cases', state['ncases'])
+    skipped = state['skipped']
     if skipped:
         res.notes.append(f'{skipped} generated nodes were rejected by frappy itself at creation and skipped')
     return res
